@@ -138,3 +138,61 @@ Proof.
   - split. apply s_line_parses; auto. split. apply s_item_assembles; exact He. auto.
   - split. apply u_line_parses; auto. split. apply u_item_assembles; exact He. auto.
 Qed.
+
+(* ---- explicitly written compressed instructions: two registers (c.mv, c.add, c.sub ..) or register + literal (c.addi, c.li ..) -- *)
+Lemma cr_item_assembles l cls name a b h :
+  (cls = "CRTypeInstruction" \/ cls = "CATypeInstruction") ->
+  encode name [AStr a; AStr b] [] = Ok h ->
+  assemble_items [(l, IInstr cls name [("rd_rs1", R a); ("rs2", R b)] true)] [] [] false =
+  Done {| r_chunks := [(l, CBytes (le_bytes 2 h))]; r_consts := []; r_labels := [] |}.
+Proof. intros [->| ->] H; unfold assemble_items; cbn; unfold encode_item; cbn; rewrite H; reflexivity. Qed.
+Lemma ci_item_assembles l name a v h :
+  encode name [AStr a; AInt v] [] = Ok h ->
+  assemble_items [(l, IInstr "CITypeInstruction" name [("rd_rs1", R a); ("imm", FExpr (EArith (ANum v)))] true)] [] [] false =
+  Done {| r_chunks := [(l, CBytes (le_bytes 2 h))]; r_consts := []; r_labels := [] |}.
+Proof. intro H. unfold assemble_items. cbn. unfold encode_item. cbn. rewrite H. reflexivity. Qed.
+
+Definition cr_names : list string := map fst CR_TYPE_INSTRUCTIONS_final.
+Definition ca_names : list string := map fst CA_TYPE_INSTRUCTIONS_final.
+Definition ci_names : list string := map fst CI_TYPE_INSTRUCTIONS_final.
+Lemma cr_line_parses l name a b : In name cr_names -> String.eqb a "=" = false ->
+  parse_item l [name; a; b] = FOk (IInstr "CRTypeInstruction" name [("rd_rs1", R a); ("rs2", R b)] true).
+Proof.
+  intros Hn Hrd. unfold cr_names in Hn. vm_compute in Hn.
+  repeat (destruct Hn as [<-|Hn]; [nav Hrd; reflexivity|]). contradiction.
+Qed.
+Lemma ca_line_parses l name a b : In name ca_names -> String.eqb a "=" = false ->
+  parse_item l [name; a; b] = FOk (IInstr "CATypeInstruction" name [("rd_rs1", R a); ("rs2", R b)] true).
+Proof.
+  intros Hn Hrd. unfold ca_names in Hn. vm_compute in Hn.
+  repeat (destruct Hn as [<-|Hn]; [nav Hrd; reflexivity|]). contradiction.
+Qed.
+Lemma ci_line_parses l name a tok v : In name ci_names -> String.eqb a "=" = false ->
+  parse_immediate [tok] l = FOk (EArith (ANum v)) ->
+  parse_item l [name; a; tok] = FOk (IInstr "CITypeInstruction" name [("rd_rs1", R a); ("imm", FExpr (EArith (ANum v)))] true).
+Proof.
+  intros Hn Hrd Hp. unfold ci_names in Hn. vm_compute in Hn.
+  repeat (destruct Hn as [<-|Hn]; [nav Hrd; cbn [fbind]; rewrite Hp; reflexivity|]). contradiction.
+Qed.
+
+From BB Require Import Spec.RVC Spec.Legal Proofs.C02Main.
+Theorem c_line_end_to_end l name toks it args h :
+  (exists a b, In name cr_names /\ String.eqb a "=" = false /\ toks = [name; a; b] /\ args = [AStr a; AStr b] /\
+               it = IInstr "CRTypeInstruction" name [("rd_rs1", R a); ("rs2", R b)] true) \/
+  (exists a b, In name ca_names /\ String.eqb a "=" = false /\ toks = [name; a; b] /\ args = [AStr a; AStr b] /\
+               it = IInstr "CATypeInstruction" name [("rd_rs1", R a); ("rs2", R b)] true) \/
+  (exists a tok v, In name ci_names /\ String.eqb a "=" = false /\ parse_immediate [tok] l = FOk (EArith (ANum v)) /\
+               toks = [name; a; tok] /\ args = [AStr a; AInt v] /\
+               it = IInstr "CITypeInstruction" name [("rd_rs1", R a); ("imm", FExpr (EArith (ANum v)))] true) ->
+  In name c_mnemonics -> encode name args [] = Ok h ->
+  exists ops c,
+    parse_item l toks = FOk it /\
+    assemble_items [(l, it)] [] [] false = Done {| r_chunks := [(l, CBytes (le_bytes 2 h))]; r_consts := []; r_labels := [] |} /\
+    (0 <= h < 2 ^ 16)%Z /\ operands16 name args = Some ops /\ legal16 name ops = true /\ denote16 name ops = Some c /\ decode16 h = Some c.
+Proof.
+  intros Hc Hm He. destruct (forward name _ _ h Hm He) as (Hh & ops & c & H1 & H2 & H3 & H4). exists ops, c.
+  destruct Hc as [(a & b & Hn & Hrd & -> & -> & ->)|[(a & b & Hn & Hrd & -> & -> & ->)|(a & tok & v & Hn & Hrd & Hp & -> & -> & ->)]].
+  - split. apply cr_line_parses; auto. split. apply cr_item_assembles; auto. auto 10.
+  - split. apply ca_line_parses; auto. split. apply cr_item_assembles; auto. auto 10.
+  - split. apply ci_line_parses; auto. split. apply ci_item_assembles; auto. auto 10.
+Qed.
